@@ -14,6 +14,9 @@ struct Shape {
     main: String,
     /// true: the recursion is unbounded, the only acceptable outcome is the limit error
     infinite: bool,
+    /// the same recursion without what each level attempts (and the embedding program handles) on the
+    /// side: it must be cut off at the same level
+    baseline: Option<String>,
 }
 
 const WRAPPERS: &[(&str, &str, &str)] = &[
@@ -79,6 +82,7 @@ fn shapes(tier: Tier) -> Vec<Shape> {
                         templates: vec![("main".into(), src), ("leaf".into(), "leaf{{ d }}".into()), ("lib".into(), "{% macro ih() %}ih{% endmacro %}".into())],
                         main: "main".into(),
                         infinite: true,
+                        baseline: None,
                     });
                 }
             }
@@ -109,13 +113,13 @@ fn shapes(tier: Tier) -> Vec<Shape> {
                     (format!("t{}", i), format!("x{}{{% include 't{}' %}}{}", pre, (i + 1) % len, post))
                 })
                 .collect();
-            v.push(Shape { name: format!("include_cycle[{}]", ps.iter().map(|p| placements[*p].0).collect::<Vec<_>>().join(">")), family: "include_cycle", templates: templates.clone(), main: "t0".into(), infinite: true });
+            v.push(Shape { name: format!("include_cycle[{}]", ps.iter().map(|p| placements[*p].0).collect::<Vec<_>>().join(">")), family: "include_cycle", templates: templates.clone(), main: "t0".into(), infinite: true, baseline: None });
             if len <= 2 {
                 for (sname, side) in [("after_helper_macro", "{% macro hp() %}h{% endmacro %}{{ hp() }}"), ("after_include", "{% include 'leaf' %}"), ("after_imported_helper", "{% from 'lib' import ih %}{{ ih() }}")] {
                     let mut t2: Vec<(String, String)> = templates.iter().map(|(n, s)| (n.clone(), s.replacen("{% include 't", &format!("{}{{% include 't", side), 1))).collect();
                     t2.push(("leaf".into(), "leaf".into()));
                     t2.push(("lib".into(), "{% macro ih() %}ih{% endmacro %}".into()));
-                    v.push(Shape { name: format!("include_cycle[{}] {}", ps.iter().map(|p| placements[*p].0).collect::<Vec<_>>().join(">"), sname), family: "include_cycle", templates: t2, main: "t0".into(), infinite: true });
+                    v.push(Shape { name: format!("include_cycle[{}] {}", ps.iter().map(|p| placements[*p].0).collect::<Vec<_>>().join(">"), sname), family: "include_cycle", templates: t2, main: "t0".into(), infinite: true, baseline: None });
                 }
             }
         }
@@ -123,13 +127,13 @@ fn shapes(tier: Tier) -> Vec<Shape> {
     // family C: import cycles (top-level import of the next template) and macro-level imports
     for len in 1..=3usize {
         let templates: Vec<(String, String)> = (0..len).map(|i| (format!("t{}", i), format!("{{% from 't{}' import f as g %}}{{% macro f() %}}{{{{ g() }}}}{{% endmacro %}}{{{{ f() }}}}", (i + 1) % len))).collect();
-        v.push(Shape { name: format!("import_cycle_toplevel[{}]", len), family: "import_cycle", templates, main: "t0".into(), infinite: true });
+        v.push(Shape { name: format!("import_cycle_toplevel[{}]", len), family: "import_cycle", templates, main: "t0".into(), infinite: true, baseline: None });
         let templates: Vec<(String, String)> = (0..len)
             .map(|i| (format!("t{}", i), format!("{{% macro f(d) %}}{{% from 't{}' import f as g %}}{{{{ g(d + 1) }}}}{{% endmacro %}}{{% if start %}}{{{{ f(0) }}}}{{% endif %}}", (i + 1) % len)))
             .collect();
-        v.push(Shape { name: format!("import_in_macro_cycle[{}]", len), family: "import_cycle", templates, main: "t0".into(), infinite: true });
+        v.push(Shape { name: format!("import_in_macro_cycle[{}]", len), family: "import_cycle", templates, main: "t0".into(), infinite: true, baseline: None });
         let templates: Vec<(String, String)> = (0..len).map(|i| (format!("t{}", i), format!("{{% macro f(d) %}}{{% include 'i{}' %}}{{% endmacro %}}", i))).chain((0..len).map(|i| (format!("i{}", i), format!("{{% from 't{}' import f as g %}}{{{{ g(1) }}}}", (i + 1) % len)))).chain(std::iter::once(("main".to_string(), "{% from 't0' import f %}{{ f(0) }}".to_string()))).collect();
-        v.push(Shape { name: format!("macro_include_import_cycle[{}]", len), family: "import_cycle", templates, main: "main".into(), infinite: true });
+        v.push(Shape { name: format!("macro_include_import_cycle[{}]", len), family: "import_cycle", templates, main: "main".into(), infinite: true, baseline: None });
     }
     // family D: recursive loops over deep data (depth 10^4), with work on each level
     for (wname, wpre, wpost) in WORK {
@@ -139,6 +143,7 @@ fn shapes(tier: Tier) -> Vec<Shape> {
             templates: vec![("main".into(), format!("{{% for x in deep recursive %}}{}{{{{ loop(x) }}}}{}{{% endfor %}}", wpre, wpost))],
             main: "main".into(),
             infinite: false,
+            baseline: None,
         });
         if *wname != "nested_work" {
         v.push(Shape {
@@ -148,6 +153,7 @@ fn shapes(tier: Tier) -> Vec<Shape> {
             templates: vec![("main".into(), format!("{{% for x in [[1]] recursive %}}{}{{{{ loop([[1]]) }}}}{}{{% endfor %}}", wpre.replace("{% for q1 in [1] %}", "").replace("{% for q2 in [1] %}", "{% with q2 = 1 %}"), wpost.replacen("{% endfor %}", "{% endwith %}", 1).replacen("{% endfor %}", "", 1)))],
             main: "main".into(),
             infinite: true,
+            baseline: None,
         });
         }
         v.push(Shape {
@@ -156,13 +162,14 @@ fn shapes(tier: Tier) -> Vec<Shape> {
             templates: vec![("main".into(), format!("{{% macro walk(n) %}}{{% for x in n recursive %}}{}{{{{ walk(x) }}}}{{{{ loop(x) }}}}{}{{% endfor %}}{{% endmacro %}}{{{{ walk(deep) }}}}", wpre, wpost))],
             main: "main".into(),
             infinite: false,
+            baseline: None,
         });
     }
     // family E: super() chains of various lengths (finite)
     for n in [10usize, 120, 499, 501, 1200] {
         let mut templates: Vec<(String, String)> = (0..n).map(|i| (format!("t{}", i), format!("{{% extends 't{}' %}}{{% block b %}}[{{{{ super() }}}}]{{% endblock %}}", i + 1))).collect();
         templates.push((format!("t{}", n), "{% block b %}base{% endblock %}".into()));
-        v.push(Shape { name: format!("super_chain[{}]", n), family: "super_chain", templates, main: "t0".into(), infinite: false });
+        v.push(Shape { name: format!("super_chain[{}]", n), family: "super_chain", templates, main: "t0".into(), infinite: false, baseline: None });
     }
     // family F: block self-calls and caller / higher-order recursion
     for (name, src) in [
@@ -189,9 +196,57 @@ fn shapes(tier: Tier) -> Vec<Shape> {
         ("macro_via_host_invoke_by_name", "{% macro m(d) %}{{ invoke('m', d) }}{% endmacro %}{{ m(0) }}"),
     ] {
         // (argument binding of the varargs shape may legitimately fail before it recurses)
-        v.push(Shape { name: name.into(), family: "self_reference", templates: vec![("main".into(), src.into())], main: "main".into(), infinite: name != "macro_kwargs_varargs" });
+        v.push(Shape { name: name.into(), family: "self_reference", templates: vec![("main".into(), src.into())], main: "main".into(), infinite: name != "macro_kwargs_varargs", baseline: None });
+    }
+    // family H: at every level of an unbounded recursion the template attempts something on the side
+    // through a host function that handles the failure (near the limit the side no longer fits and is
+    // refused); whatever the refused or failed attempt had charged must be given back exactly: the
+    // recursion is cut off at the same level as without the side, and never by the stack
+    {
+        const EDGES: &[(&str, &str, &str)] = &[
+            ("block_via_state", "{% block r %}{{ tick() }}SIDE{{ rb('r') }}{% endblock %}", ""),
+            ("block_self_call", "{% block r %}{{ tick() }}SIDE{{ self.r() }}{% endblock %}", ""),
+            ("macro_via_host_call", "{{ r(r) }}", "{% macro r(f) %}{{ tick() }}SIDE{{ callit(f) }}{% endmacro %}"),
+            ("macro_direct", "{{ r(0) }}", "{% macro r(d) %}{{ tick() }}SIDE{{ r(d + 1) }}{% endmacro %}"),
+            ("macro_in_loop_and_with", "{{ r(0) }}", "{% macro r(d) %}{% for q in [1] %}{% with z = d %}{{ tick() }}SIDE{{ r(z + 1) }}{% endwith %}{% endfor %}{% endmacro %}"),
+        ];
+        const SIDE_BODIES: &[(&str, &str)] = &[
+            ("include", "{% include 'leaf' %}"),
+            ("include_of_including", "{% include 'mid' %}"),
+            ("from_import_and_call", "{% from 'lib' import ih %}{{ ih() }}"),
+            ("import_module", "{% import 'lib' as lb %}{{ lb.ih() }}"),
+            ("helper_macro", "{{ hp(1) }}"),
+            ("call_block", "{% call w() %}x{% endcall %}"),
+            ("nested_constructs", "{% for q in [1] %}{% with z = 1 %}{% filter upper %}{% set c %}x{% endset %}{{ c }}{% endfilter %}{% endwith %}{% endfor %}"),
+            ("recursive_loop", "{% for x in [[[1]]] recursive %}{{ loop(x) if x is iterable else x }}{% endfor %}"),
+            ("failing_expression", "{{ 1 // 0 }}"),
+            ("include_missing", "{% include 'nope' %}"),
+        ];
+        for (ename, emain, edefs) in EDGES {
+            for (sname, sbody) in SIDE_BODIES {
+                for (via, side_call, side_def) in [
+                    ("handled_block", "{{ attempt_block('i') }}", format!("{{% if false %}}{{% block i %}}{}{{% endblock %}}{{% endif %}}", sbody)),
+                    ("handled_macro", "{{ attempt(sm) }}", format!("{{% macro sm() %}}{}{{% endmacro %}}", sbody)),
+                ] {
+                    let prelude = "{% macro w() %}{{ caller() }}{% endmacro %}{% macro hp(v) %}{{ v }}{% endmacro %}";
+                    let build = |side: &str| format!("{}{}{}{}{}", prelude, side_def, edefs.replace("SIDE", side), emain.replace("SIDE", side), "");
+                    v.push(Shape {
+                        name: format!("handled_side[{} {} {}]", ename, sname, via),
+                        family: "handled_side",
+                        templates: vec![("main".into(), build(side_call)), ("leaf".into(), "leaf".into()), ("mid".into(), "{% include 'leaf' %}".into()), ("lib".into(), "{% macro ih() %}ih{% endmacro %}".into())],
+                        main: "main".into(),
+                        infinite: true,
+                        baseline: Some(build("")),
+                    });
+                }
+            }
+        }
     }
     v
+}
+
+thread_local! {
+    static TICKS: std::cell::Cell<u64> = const { std::cell::Cell::new(0) };
 }
 
 const LIMITS_Q: &[usize] = &[1, 2, 3, 7, 50, 250, 499, 500];
@@ -240,6 +295,12 @@ fn run_case(family: &str, n: u64, cc: &mut ChildCtx) {
     let limit = lims[(n as usize) % lims.len()];
     let mut env = Environment::new();
     env.set_recursion_limit(limit);
+    env.add_function("tick", || {
+        TICKS.with(|t| t.set(t.get() + 1));
+        ""
+    });
+    env.add_function("attempt", |state: &mut minijinja::State, f: Value| f.call(state, &[]).unwrap_or_else(|_| Value::from("~")));
+    env.add_function("attempt_block", |state: &mut minijinja::State, name: String| state.render_block(&name).unwrap_or_else(|_| "~".into()));
     env.add_function("rb", |state: &mut minijinja::State, name: String| state.render_block(&name));
     env.add_function("callit", |state: &mut minijinja::State, f: Value| f.call(state, &[f.clone()]));
     env.add_filter("callit", |state: &mut minijinja::State, f: Value| f.call(state, &[f.clone()]));
@@ -254,8 +315,19 @@ fn run_case(family: &str, n: u64, cc: &mut ChildCtx) {
     // dropping it recurses once per level in the *host's* drop glue, which is not the engine's
     // recursion this property is about
     let ctx = if shape.family == "recursive_loop" { context! { deep => deep_value(10_000), start => true } } else { context! { start => true } };
+    TICKS.with(|t| t.set(0));
     let r = env.get_template(&shape.main).and_then(|t| t.render(ctx.clone()));
     std::mem::forget(ctx);
+    if let Some(base) = &shape.baseline {
+        let with_side = TICKS.with(|t| t.replace(0));
+        let rb = env.render_str(base, ());
+        let without = TICKS.with(|t| t.get());
+        if with_side != without || rb.is_ok() {
+            cc.violation(n, "depth_reached_differs", &format!("the recursion is entered {} times when every level attempts a handled side call, {} times without it (limit {})", with_side, without, limit));
+        } else {
+            cc.outcome(if with_side > 1 { "same depth with and without handled side calls" } else { "same depth (limit refuses the first level)" });
+        }
+    }
     match r {
         Err(e) if mentions_recursion_limit(&e) => cc.outcome("recursion limit error"),
         Err(e) => {
